@@ -430,7 +430,7 @@ ModelBasesValid ==
   (phase = "done" /\ Len(vec.muts) = 0 /\ vec.trunc < 0 /\ (vec.fmt = "ogg" => vec.fix)) =>
      IF Parser(vec.fmt) THEN run.open \in {"value", "error"}
      ELSE run.open = "value" /\ run["end"] = "eof" /\ Len(run.calls) = Base(FB).nvals
-\* and so are the Ogg pages of the base once the driver has filled in their checksums
+\* and the Ogg base files consist of complete pages (their checksums are verified by the driver)
 ASSUME OggBasesFramed ==
   \A fb \in {x \in BaseIds : x[1] = "ogg"} :
      LET w == OggWalk(BaseBytes(fb), 0) IN \E pg \in w : pg[2] = Len(BaseBytes(fb))
